@@ -83,6 +83,37 @@ def _work(job):
                                 'failed_clauses': sorted({o['clause'] for o in s['failed']}),
                                 'witness': (s['failed'][0].get('replay') or {}).get('inputs') if killed else None,
                                 'error': s['error'], 'unsupported': s['unsupported'][:2], 'secs': s['secs']}
+        if kind == 'leangen':
+            # statements are regenerated from /repo's current source, then checked by Lean with the committed proof script
+            import subprocess, re
+            script, path_rel = name
+            t0 = time.time()
+            g = subprocess.run([sys.executable, os.path.join(ROOT, script)], capture_output=True, text=True, timeout=120,
+                               env=dict(os.environ, PYVC_REPO=os.environ.get('PYVC_REPO', '/repo')))
+            base = {'unit': 'leangen:' + path_rel, 'paths': 0, 'obligations': 0, 'discharged': 0, 'failed': [], 'undecided': [], 'unsupported': [],
+                    'secs': 0, 'solver_secs': 0, 'error': None, 'crosscheck': None, 'canaries': [], 'src_hash': None, 'by_backend': {},
+                    'contracts_used': [], 'lemmas_used': [], 'clauses': {}}
+            if g.returncode != 0:
+                base['undecided'] = [{'id': 'leangen:' + path_rel, 'reason': 'statement extraction failed: ' + (g.stdout + g.stderr)[-300:]}]
+                return 'lean', path_rel, base
+            path = os.path.join(ROOT, path_rel)
+            src = open(path).read()
+            n = len(re.findall(r'^theorem gen_', src, flags=re.M))
+            p = subprocess.run(['lean', path], capture_output=True, text=True, timeout=1200)
+            base['obligations'] = n
+            base['secs'] = base['solver_secs'] = round(time.time() - t0, 2)
+            bad = [w for w in ('sorry', 'admit') if re.search(r'\b' + w + r'\b', re.sub(r'/-.*?-/', '', src, flags=re.S))]
+            if p.returncode == 0 and 'error' not in p.stdout and not bad:
+                base['discharged'] = n
+                base['by_backend'] = {'lean4-mathlib': n}
+            elif 'error' in p.stdout and 'timeout' not in p.stdout.lower():
+                base['failed'] = [{'id': 'leangen:%s/lean:generated-statements' % path_rel, 'clause': 'leangen:%s' % path_rel, 'kind': 'lean', 'label': path_rel, 'status': 'failed',
+                                   'backend': 'lean4-mathlib', 'secs': base['secs'], 'reason': p.stdout[-600:], 'trace': [],
+                                   'goal': 'the formulas extracted from the current source are Mathlib\'s group law', 'model': None,
+                                   'replay': {'inputs': None, 'error': 'Lean gives no counterexample'}}]
+            else:
+                base['undecided'] = [{'id': 'leangen:' + path_rel, 'reason': (p.stdout + p.stderr)[-300:]}]
+            return 'lean', path_rel, base
         if kind == 'lean':
             import subprocess, re
             path = os.path.join(ROOT, name)
@@ -122,8 +153,8 @@ def _child(job, conn):
         conn.close()
 
 
-JOB_TIMEOUT = {'quick': {'unit': 600, 'lemma': 240, 'canary': 180, 'bounded': 600, 'lean': 900},
-               'thorough': {'unit': 1500, 'lemma': 600, 'canary': 900, 'bounded': 1800, 'lean': 1500}}
+JOB_TIMEOUT = {'quick': {'unit': 600, 'lemma': 240, 'canary': 180, 'bounded': 600, 'lean': 900, 'leangen': 1000},
+               'thorough': {'unit': 1500, 'lemma': 600, 'canary': 900, 'bounded': 1800, 'lean': 1500, 'leangen': 1500}}
 
 
 MEM_LIMIT_GB = float(os.environ.get('PYVC_JOB_MEM_GB', '10'))
@@ -145,7 +176,7 @@ def run_jobs(jobs, njobs, tier):
     ctx = mp.get_context('fork')
     pending = list(jobs)
     # long jobs first
-    order = {'bounded': 0, 'unit': 1, 'canary': 2, 'lemma': 3}
+    order = {'leangen': 0, 'lean': 0, 'bounded': 0, 'unit': 1, 'canary': 2, 'lemma': 3}
     pending.sort(key=lambda j: order.get(j[0], 9))
     running = []
     results = []
@@ -287,6 +318,10 @@ def check(args):
     for name, meta in bounded.META.items():
         if pid in meta['props']:
             jobs.append(('bounded', name, opts))
+    for u in units:
+        lg = getattr(reg.contracts[u].cls, 'lean_gen', None)
+        if lg:
+            jobs.append(('leangen', tuple(lg), opts))
     if not jobs:
         print("no checks registered for", pid)
         return 3
